@@ -52,7 +52,7 @@ SOp(op, A, B) ==
     LET ends  == {A[i][1] : i \in DOMAIN A} \cup {A[i][2] : i \in DOMAIN A} \cup
                  {B[i][1] : i \in DOMAIN B} \cup {B[i][2] : i \in DOMAIN B}
         xs    == SetToSortSeq(ends, <)
-        elems == [k \in 1..(Len(xs) - 1) |-> <<xs[k], xs[k + 1]>>]
+        elems == IF Len(xs) < 2 THEN <<>> ELSE [k \in 1..(Len(xs) - 1) |-> <<xs[k], xs[k + 1]>>]
         keep(e) == LET a == SIn(A, e[1])  b == SIn(B, e[1]) IN
                    CASE op = "union"     -> a \/ b
                      [] op = "intersect" -> a /\ b
@@ -80,9 +80,10 @@ YEnds(R) == {R[i][2] : i \in {j \in DOMAIN R : Good(R[j])}} \cup
 
 BandOp(op, A, B) ==
     LET ys    == SetToSortSeq(YEnds(A) \cup YEnds(B), <)
-        raw   == [k \in 1..(Len(ys) - 1) |->
-                    <<ys[k], ys[k + 1],
-                      SOp(op, SpansOf(A, ys[k], ys[k + 1]), SpansOf(B, ys[k], ys[k + 1]))>>]
+        raw   == IF Len(ys) < 2 THEN <<>>
+                 ELSE [k \in 1..(Len(ys) - 1) |->
+                         <<ys[k], ys[k + 1],
+                           SOp(op, SpansOf(A, ys[k], ys[k + 1]), SpansOf(B, ys[k], ys[k + 1]))>>]
         bands == SelectSeq(raw, LAMBDA b : b[3] # <<>>)
     IN  EmitBands(Coalesce(bands, <<>>))
 
@@ -91,9 +92,10 @@ Canon(R) == BandOp("union", R, <<>>)
 (* the same sweep without vertical coalescing: used only by negative model configurations *)
 BandOpNoCoalesce(op, A, B) ==
     LET ys    == SetToSortSeq(YEnds(A) \cup YEnds(B), <)
-        raw   == [k \in 1..(Len(ys) - 1) |->
-                    <<ys[k], ys[k + 1],
-                      SOp(op, SpansOf(A, ys[k], ys[k + 1]), SpansOf(B, ys[k], ys[k + 1]))>>]
+        raw   == IF Len(ys) < 2 THEN <<>>
+                 ELSE [k \in 1..(Len(ys) - 1) |->
+                         <<ys[k], ys[k + 1],
+                           SOp(op, SpansOf(A, ys[k], ys[k + 1]), SpansOf(B, ys[k], ys[k + 1]))>>]
     IN  EmitBands(SelectSeq(raw, LAMBDA b : b[3] # <<>>))
 
 IsCanonical(L) == Canon(L) = L
